@@ -17,9 +17,13 @@ type RegData struct {
 const regHasUpvalue uint = 1
 
 type CodeBuilder struct {
-	chunkName    string
-	registers    []RegData
-	context      lexicalContext
+	chunkName string
+	registers []RegData
+	context   lexicalContext
+	// scopesOf maps a name to the indexes (innermost last) of the scopes of
+	// context in which it is currently declared, so that resolving a name does
+	// not walk every enclosing scope.
+	scopesOf     map[Name][]int
 	parent       *CodeBuilder
 	upvalues     []Register
 	upvalueDests []Register
@@ -119,8 +123,37 @@ func (c *CodeBuilder) GetRegister(name Name) (Register, bool) {
 	return c.getRegister(name, 0)
 }
 
+// noteDeclared records that name is declared in the scope of index i.
+func (c *CodeBuilder) noteDeclared(name Name, i int) {
+	if c.scopesOf == nil {
+		c.scopesOf = make(map[Name][]int)
+	}
+	idx := c.scopesOf[name]
+	if n := len(idx); n > 0 && idx[n-1] == i {
+		return
+	}
+	c.scopesOf[name] = append(idx, i)
+}
+
+// lookup returns the register associated with name in the innermost scope
+// that declares it (see lexicalContext.getRegister, which it replaces).
+func (c *CodeBuilder) lookup(name Name, tags uint) (reg Register, ok bool) {
+	idx := c.scopesOf[name]
+	if len(idx) == 0 {
+		return
+	}
+	verifScopeVisit()
+	scope := c.context[idx[len(idx)-1]]
+	tr := scope.reg[name]
+	if tags != 0 {
+		tr.tags |= tags
+		scope.reg[name] = tr
+	}
+	return tr.reg, true
+}
+
 func (c *CodeBuilder) getRegister(name Name, tags uint) (reg Register, ok bool) {
-	reg, ok = c.context.getRegister(name, tags)
+	reg, ok = c.lookup(name, tags)
 	if ok || c.parent == nil {
 		return
 	}
@@ -134,7 +167,9 @@ func (c *CodeBuilder) getRegister(name Name, tags uint) (reg Register, ok bool) 
 		c.upvalueDests = append(c.upvalueDests, reg)
 		c.registers[reg].IsCell = true
 		c.registers[reg].IsConstant = isConstant
-		c.context.addToRoot(name, reg)
+		if c.context.addToRoot(name, reg) {
+			c.noteDeclared(name, 0)
+		}
 	}
 	return
 }
@@ -174,7 +209,10 @@ func (c *CodeBuilder) PopContext() {
 	c.emitTruncate(context.top())
 	c.context = context
 	c.emitClearReg(top)
-	for _, tr := range top.reg {
+	for name, tr := range top.reg {
+		if idx := c.scopesOf[name]; len(idx) > 0 && idx[len(idx)-1] == len(context) {
+			c.scopesOf[name] = idx[:len(idx)-1]
+		}
 		c.ReleaseRegister(tr.reg)
 	}
 }
@@ -227,7 +265,9 @@ func (c *CodeBuilder) EmitJump(lblName Name, line int) bool {
 
 func (c *CodeBuilder) DeclareLocal(name Name, reg Register) {
 	c.TakeRegister(reg)
-	c.context.addToTop(name, reg)
+	if c.context.addToTop(name, reg) {
+		c.noteDeclared(name, len(c.context)-1)
+	}
 }
 
 func (c *CodeBuilder) MarkConstantReg(reg Register) {
